@@ -19,7 +19,7 @@ func init() {
 			"(R2b) the early-return guard's truth table is exactly: killed∧¬zombie, or user∧state≠running∧¬zombie; (R3) a dead-letter emission is dominated by a condition that separates the root, so the root cannot feed itself; " +
 			"(R4) the guard actor republishes a received dead letter exactly once on the event stream; (R5) both terminal paths of an actor whose mailbox may be paused resume it (parked mail drains to dead letters); " +
 			"(R6) every failing exit of the remoting send reports the envelope, and the report emits one dead letter. " +
-			"(R7) the mailbox cache inside a reference is written only with the mailbox of a context found registered at the reference's path, a dead-lettering mailbox, or the root's own for the root's path — never with the mailbox of an actor the reference does not name; (R10) when nothing is registered at a local path the lookup yields a mailbox whose Enqueue turns the envelope into a dead letter on every path (the root's own mailbox only for the root's own path). (R8 = C01.R2) a message accepted by Enqueue is never stranded in an idle mailbox; (R9) the registry removal routine, which deletes by path, is called only from the dying actor's own cleanup step with its own context. (R11 = C09.R7) whatever the supervisor paused is recorded as a target on every path of apply-decision, so the resume of this or a higher level reaches it and parked mail surfaces; (R12 = C02.R6) a stashed message leaves the stash only through Unstash. (R13 = C02.R4) Unstash re-enqueues exactly the prefix it removes; (R14) the ask routine enqueues its request envelope on every path, whatever became of its future. NOT decided: exactly-once accounting across racing sends and transitions; staleness of a correctly filled cache across name reuse.",
+			"(R7) the mailbox cache inside a reference is written only with the mailbox of a context found registered at the reference's path, a dead-lettering mailbox, or the root's own for the root's path — never with the mailbox of an actor the reference does not name; (R10) when nothing is registered at a local path the lookup yields a mailbox whose Enqueue turns the envelope into a dead letter on every path (the root's own mailbox only for the root's own path). (R8 = C01.R2) a message accepted by Enqueue is never stranded in an idle mailbox; (R9) the registry removal routine, which deletes by path, is called only from the dying actor's own cleanup step with its own context. (R11 = C09.R7) whatever the supervisor paused is recorded as a target on every path of apply-decision, so the resume of this or a higher level reaches it and parked mail surfaces; (R12 = C02.R6) a stashed message leaves the stash only through Unstash. (R13 = C02.R4) Unstash re-enqueues exactly the prefix it removes; (R14) the ask routine enqueues its request envelope on every path, whatever became of its future; (R15 = the closer check of C04.R1) a completed ask is unregistered exactly once on every completing path (time-out included), so a late reply misses the registry and becomes a dead letter instead of vanishing in the closed future. NOT decided: exactly-once accounting across racing sends and transitions; staleness of a correctly filled cache across name reuse.",
 		Assumptions: []string{"the dead-letter emission is TellSelf(ves.DeathLetterEvent) on the system (root) context"},
 		Rules: []Rule{
 			{ID: "C03.R1", Min: 2, Desc: "mailbox lookup is total", Fn: c03Lookup},
@@ -35,6 +35,9 @@ func init() {
 			{ID: "C03.R13", Min: 2, Desc: "a stashed message leaves the stash only into the mailbox: Unstash re-enqueues exactly the prefix it removes and releases the array only when nothing remains (C02.R4)", Fn: c02Unstash},
 			{ID: "C03.R14", Min: 1, Desc: "Ask sends its request on every path", Fn: c03AskSends},
 			{ID: "C03.R10", Min: 1, Desc: "an unregistered local path resolves to a dead-lettering mailbox, never to another actor's", Fn: c03Unregistered},
+			{ID: "C03.R15", Min: 1, Desc: "a completed ask is unregistered exactly once on every completing path, so a late reply misses the registry and is dead-lettered (the closer check of C04.R1)", Fn: func(p *Program, r *Report) {
+				r.only(c04OneShot, func(c string) bool { return strings.Contains(c, "closer") })
+			}},
 			{ID: "C03.R7", Min: 1, Desc: "a reference caches only the mailbox of the actor registered at its path (or a dead-lettering one)", Fn: c03CacheSound},
 		},
 	})
